@@ -24,7 +24,7 @@ import (
 type boundedCheck struct {
 	Key      string   // contract key of the trusted summary it stands in for
 	Also     []string // further contract keys whose presence in a check's function set triggers it
-	File     string // under /verif/bounded
+	File     string   // under /verif/bounded
 	Test     string
 	Pkg      string // package directory relative to the repository root
 	Bound    string
@@ -32,12 +32,12 @@ type boundedCheck struct {
 }
 
 var boundedRegistry = []boundedCheck{{
-	Key:   "(*server.ServiceMap).updateRequestServiceMap",
-	File:  "update_request_service_map_test.go.txt",
-	Test:  "TestKpvBoundedUpdateRequestServiceMap",
-	Pkg:   "internal/server",
-	Also:  []string{"(*server.ServiceMap).Set", "(*server.ServiceMap).Remove"},
-	Bound: "every set of 1..3 services, each with one of 7 host lists (default, exact, wildcard, two hosts) and one of 6 path-prefix lists (root, nested, two prefixes), no (host, prefix) pair claimed twice, three TLS assignments; per set: each service Set in turn, each root-path service redeployed under its name onto other host lists and back, each service Removed (the real ServiceMap.Set / Remove, which call the function), compared after every step",
+	Key:      "(*server.ServiceMap).updateRequestServiceMap",
+	File:     "update_request_service_map_test.go.txt",
+	Test:     "TestKpvBoundedUpdateRequestServiceMap",
+	Pkg:      "internal/server",
+	Also:     []string{"(*server.ServiceMap).Set", "(*server.ServiceMap).Remove"},
+	Bound:    "every set of 1..3 services, each with one of 7 host lists (default, exact, wildcard, two hosts) and one of 6 path-prefix lists (root, nested, two prefixes), no (host, prefix) pair claimed twice, three TLS assignments; per set: each service Set in turn, each root-path service redeployed under its name onto other host lists and back, each service Removed (the real ServiceMap.Set / Remove, which call the function), compared after every step",
 	Compares: "the routing table the real function builds against R1-R4 of spec/routing.spec (every binding comes from an installed service that lists the pair; every listed pair has exactly one binding; bindings sorted by descending prefix length; no empty host entry), and the TLS settings each service ends with against 'a service that does not serve the root path follows the root-path service of its first host, else the defaults'",
 }}
 
